@@ -2,6 +2,8 @@
 
 package jd
 
+import "strconv"
+
 func init() {
 	vHarnesses["VerifC18Patch"] = VerifC18Patch
 	vHarnesses["VerifC18Merge"] = VerifC18Merge
@@ -25,6 +27,22 @@ func vC18KeyObj(nkeys int) jsonObject {
 }
 
 func vC18Docs() (JsonNode, JsonNode) {
+	if vParam("LONG", 0) == 1 {
+		// a shared prefix of 7..10 fixed strings, then up to N numbers: two-digit indices
+		k := 7 + vChoice(4)
+		a, b := jsonArray{}, jsonArray{}
+		for i := 0; i < k; i++ {
+			s := jsonString("p" + strconv.Itoa(i))
+			a, b = append(a, s), append(b, s)
+		}
+		n := vParam("N", 2)
+		a = append(a, vNumArray(n)...)
+		b = append(b, vNumArray(n)...)
+		if vChoice(2) == 1 {
+			return jsonObject{"k": a}, jsonObject{"k": b}
+		}
+		return a, b
+	}
 	switch vChoice(vParam("FAMS", 4)) {
 	case 0:
 		n := vParam("N", 2)
